@@ -40,6 +40,7 @@ type fakeConn struct {
 	reads   atomic.Int64
 	// number of ReadFrom calls entered
 	readCalls atomic.Int64
+	injected  atomic.Int64
 }
 
 func newFakeConn(local *net.UDPAddr) *fakeConn {
@@ -95,6 +96,7 @@ func (c *fakeConn) SetWriteDeadline(t time.Time) error { return nil }
 
 // Deliver a datagram to the server's socket.
 func (c *fakeConn) inject(b []byte, from *net.UDPAddr) {
+	c.injected.Add(1)
 	select {
 	case c.in <- packet{append([]byte{}, b...), from}:
 	case <-c.closed:
@@ -116,7 +118,8 @@ func (c *fakeConn) numWrites() int {
 // True when the serve loop is back in ReadFrom with nothing queued: every datagram injected so far
 // has been read AND its processPacket call has returned.
 func (c *fakeConn) idle() bool {
-	return len(c.in) == 0 && c.readCalls.Load() == c.reads.Load()+1
+	n := c.injected.Load()
+	return c.reads.Load() == n && c.readCalls.Load() == n+1
 }
 
 func (c *fakeConn) waitIdle(timeout time.Duration) bool { return waitFor(c.idle, timeout) }
